@@ -1214,7 +1214,7 @@ def fam_anyfault(tier, outdir):
             d = dict(v or {"kind": "lost"}); d.setdefault("kind", "crash"); d["fn"] = "anyfault"; d["script"] = scripts[i]; d["call"] = {"fn": "anyfault", "gfault": meta_l[i][1]}
             bad.append(d); continue
         recs.append({"id": i, "hung": v["hung"], "nfd": v["nfd"], "basefd": 3, "nalloc": v["nalloc"], "mon": v["mon"], "hit": v["hit"], "gkind": v["gkind"],
-                     "failed_children_unreaped": v["failed_children_unreaped"]})
+                     "failed_children_unreaped": v["failed_children_unreaped"], "hitfn": v.get("hitfn", ""), "hitr": v.get("hitr", 0)})
     for i, v in enumerate(averd):
         if not v or not v.get("kg"):
             d = dict(v or {"kind": "lost"}); d.setdefault("kind", "crash"); d["fn"] = "anyfault"; d["flavor"] = "asan"; d["script"] = scripts[::3][i]
@@ -1388,7 +1388,7 @@ PROPS = {
     "C16": {"families": ["drain", "drainbig", "strtwice", "run", "nest", "cxx", "free"], "title": "drain and run"},
     "C17": {"families": ["stream", "wiring", "threads", "free"], "title": "nonblocking never blocks; blocking waits only for the child"},
     "C08": {"families": ["poll", "restart", "threads", "free"], "title": "deadlines and timeouts bound every wait and poll"},
-    "C09": {"families": ["poll", "stream", "threads", "free"], "title": "poll reports exactly the true events"},
+    "C09": {"families": ["poll", "stream", "anyfault", "threads", "free"], "title": "poll reports exactly the true events"},
 }
 
 NOT_APPLICABLE = {}
